@@ -64,6 +64,76 @@ def strategy(tier):
     return c05.plans()
 
 
+def enumerate_cases(tier, seed):
+    # long failing chains (every level is listed, however deep) and ItemSpaces rejected after their parameter
+    # formula has returned (the instance being created is the last element, without a line)
+    for n in (150, 250, 600) + ((3000,) if tier == "thorough" else ()):
+        yield {"kind": "deep", "n": n, "ops": []}
+    for how in ("not_dict", "ref_clash", "bad_base"):
+        for via in ("direct", "chain", "chain_after_handled"):
+            yield {"kind": "item_reject", "how": how, "via": via, "ops": []}
+
+
+def run_directed(case, out):
+    reset_session()
+    m = mx.new_model("T")
+    s = m.new_space("S")
+    if case["kind"] == "deep":
+        n = case["n"]
+        s.new_cells("c", "lambda x: c(x - 1) + 1 if x > 0 else 1 // 0")
+        mx.set_recursion(100000)        # the library's default (the harness otherwise works with 400)
+        try:
+            s.c(n)
+            return out.fail("no-error", "c(%d) returned" % n)
+        except Exception:
+            pass
+        finally:
+            mx.set_recursion(400)
+        if type(mx.get_error()).__name__ != "ZeroDivisionError":
+            return out.fail("get-error", "deep chain: get_error() is %r" % (mx.get_error(),))
+        got = [tb_entry(nd, ln) for nd, ln in mx.get_traceback()]
+        want = [(("S",), "c", (x,), 1) for x in range(n, -1, -1)]
+        if got != want:
+            return out.fail("traceback", "failing chain of %d elements: get_traceback() has %d entries, first %r, last %r" % (
+                n + 1, len(got), got[:1], got[-1:]))
+        out.nontrivial = True
+        out.label("deep_chain")
+        return out
+    how, via = case["how"], case["via"]
+    formula = {"not_dict": "lambda i: 5", "ref_clash": "lambda i: {'refs': {'c': 1}}",
+               "bad_base": "lambda i: {'base': 5}"}[how]
+    p = m.new_space("P", formula=formula)
+    p.new_cells("c", "lambda: 1")
+    s.new_cells("bad", "lambda x: 1 // 0")
+    s.new_cells("mid", "lambda x: _model.P[x].c()")
+    s.new_cells("top", "lambda x: mid(x) + 1")
+    if via == "chain_after_handled":
+        try:
+            s.bad(1)            # an earlier failure of another chain
+        except Exception:
+            pass
+    try:
+        if via == "direct":
+            p[3]
+        else:
+            s.top(3)
+        return out.fail("no-error", "an ItemSpace whose formula returns %s was created" % formula)
+    except Exception as exc:
+        if type(exc).__name__ != "FormulaError":
+            return out.fail("error-kind", "%s / %s: raised %r" % (how, via, exc))
+    got = [tb_entry(nd, ln) for nd, ln in mx.get_traceback()]
+    want = [(("P",), None, (3,), 0)]
+    if via != "direct":
+        want = [(("S",), "top", (3,), 1), (("S",), "mid", (3,), 1)] + want
+    if got != want:
+        return out.fail("traceback", "%s / %s: get_traceback() = %r, executing chain = %r" % (how, via, got, want))
+    if mx.get_error() is None or isinstance(mx.get_error(), ZeroDivisionError):
+        return out.fail("get-error", "%s / %s: get_error() is %r" % (how, via, mx.get_error()))
+    out.nontrivial = True
+    out.label("item_reject")
+    return out
+
+
 def tb_entry(node, line):
     obj = node.obj
     if isinstance(obj, Cells):
@@ -73,6 +143,8 @@ def tb_entry(node, line):
 
 def run_case(case):
     out = Outcome()
+    if case.get("kind") in ("deep", "item_reject"):
+        return run_directed(case, out)
     reset_session()
     real = Real()
     rm = R.RModel()
